@@ -91,7 +91,7 @@ class DocGen:
     def __init__(self, rng, desc):
         self.rng = rng
         self.desc = desc
-        self.vars = []       # [(name, type tuple)]
+        self.vars = []       # [(name, type tuple, default literal or None)]
         self.frags = []      # token lists
         self.n_alias = 0
 
@@ -112,14 +112,20 @@ class DocGen:
                 continue
             if rng.random() < 0.35 and len(self.vars) < 4:
                 name = "v%d" % len(self.vars)
-                self.vars.append((name, a["type"]))
+                lit = gs.default_for(rng, a["type"], self.desc) if a["type"][0] == "nonNull" else None
+                if lit is not None and lit != "null" and rng.random() < 0.6:
+                    # NULLABLE variable with a default at a NON-NULL argument: validates; an explicit null in the
+                    # payload only fails when the ARGUMENT is coerced, i.e. at execution time, once per parent object
+                    self.vars.append((name, a["type"][1], lit))
+                else:
+                    self.vars.append((name, a["type"], None))
                 val = ["$", name]
             else:
                 lit = gs.default_for(rng, a["type"], self.desc)
                 if lit is None or (lit == "null" and a["type"][0] == "nonNull"):
                     if req:
                         name = "v%d" % len(self.vars)
-                        self.vars.append((name, a["type"]))
+                        self.vars.append((name, a["type"], None))
                         val = ["$", name]
                     else:
                         continue
@@ -185,8 +191,8 @@ class DocGen:
             head = [kind] + ([name] if name else [])
             if self.vars:
                 head += ["("]
-                for n, t in self.vars:
-                    head += ["$", n, ":", gs.ty_str(t)]
+                for n, t, d in self.vars:
+                    head += ["$", n, ":", gs.ty_str(t)] + (["=", d] if d is not None else [])
                 head += [")"]
         return head + sel, list(self.vars)
 
@@ -243,8 +249,15 @@ def gen_request(rng, desc, depth=3):
     sel = [o for o in ops if o[0] == opname] if opname else ops[:1]
     vs = sel[0][2] if sel else []
     variables = {}
-    for n, t in vs:
+    for n, t, d in vs:
         r = rng.random()
+        if d is not None:
+            if r < 0.6:
+                variables[n] = None
+                tags.append("arg-coercion-null")
+            elif r < 0.8:
+                variables[n] = json_for(rng, t, desc)
+            continue
         if r < 0.7:
             variables[n] = json_for(rng, t, desc)
         elif r < 0.8:
@@ -270,14 +283,16 @@ EXTENSIONS = [None, None, {}, {"code": "E1"}, {"code": 42, "nested": {"a": [1, N
 class World:
     """Deterministic resolver outcomes: a function of (seed, response path)."""
 
-    def __init__(self, seed, schema, p_raise=0.1, p_null=0.15, p_null_nn=0.08, nonfinite=False, odd_scalars=True):
+    def __init__(self, seed, schema, p_raise=0.1, p_null=0.15, p_null_nn=0.08, nonfinite=False, odd_scalars=True, min_items=0):
         self.seed = seed
         self.schema = schema
         self.p_raise, self.p_null, self.p_null_nn = p_raise, p_null, p_null_nn
         self.nonfinite = nonfinite
         self.odd = odd_scalars
+        self.min_items = min_items
         self.calls = []          # [(path tuple, field type, outcome)]
         self.injected_nonfinite = False
+        self.shared = {}         # shared ResolverError instances of this request
 
     def rng_for(self, path):
         return random.Random(zlib.crc32(repr((self.seed, tuple(path))).encode()))
@@ -292,7 +307,7 @@ class World:
         if rng.random() < self.p_null:
             return None
         if isinstance(t, ListType):
-            return [self.value_of(t.type, rng, depth + 1) for _ in range(rng.randint(0, 3) if depth < 2 else 1)]
+            return [self.value_of(t.type, rng, depth + 1) for _ in range(rng.randint(self.min_items, max(3, self.min_items + 2)) if depth < 2 else max(1, self.min_items))]
         if isinstance(t, EnumType):
             return rng.choice(list(t.values)).value
         if isinstance(t, ScalarType):
@@ -327,7 +342,9 @@ class World:
         if rng.random() < self.p_raise:
             msg = rng.choice(MESSAGES)
             ext = rng.choice(EXTENSIONS)
-            cls = rng.choice([0, 1])
+            # 0: fresh ResolverError, 1: fresh application subclass, 2: ONE shared instance per (message, extensions)
+            # raised again and again (a module-level constant such as NOT_FOUND), 3: fresh, constructed with a bogus path
+            cls = rng.choice([0, 1, 2, 2, 3])
             return ("raised", msg, ext, cls)
         return ("value", self.value_of(ftype, rng))
 
@@ -339,7 +356,15 @@ class World:
         o = self.outcome(path, ftype)
         self.calls.append((path, ftype, [n.loc[0] for n in info.nodes], o))
         if o[0] == "raised":
-            cls = _MyError() if o[3] else ResolverError
+            if o[3] == 2:
+                key = (o[1], repr(o[2]))
+                err = self.shared.get(key)
+                if err is None:
+                    err = self.shared[key] = ResolverError(o[1]) if o[2] is None else ResolverError(o[1], extensions=o[2])
+                raise err
+            if o[3] == 3:
+                raise ResolverError(o[1], path=["bogus", 0], extensions=o[2])
+            cls = _MyError() if o[3] == 1 else ResolverError
             if o[2] is None:
                 raise cls(o[1])
             raise cls(o[1], extensions=o[2])
